@@ -783,3 +783,57 @@ def sg9(P, C):
              "(%s)" % ("the only test of the counter after the loop is diagnostic, under `if (verbose)`" if tests else "the counter is not tested after the loop"))
     if n < 3:
         raise core.AnalysisBroken("SG-9: expected the three block solvers, found %d" % n)
+
+
+def sg10(P, C):
+    """SG-10: the flag that says whether the snapshot of the constrained set is in use is set in every iteration."""
+    from . import ts
+    C.rule("SG-10", "nnls_normal_block3 chooses the coefficients to release from the live constrained set G, or — while the factor is out of step "
+           "with the partition — from a snapshot of it, according to a count that is negative when the snapshot is not in use. At the end of "
+           "every outer iteration that count is assigned on both sides of the `nH1 == 0` test: negative where the factor is in step again, the "
+           "snapshot's size where constraints are pending. Left stale on the in-step side, later iterations keep consulting an old snapshot, a "
+           "coefficient bound since then can never be released, and the solver stops at a feasible but non-optimal point", floor=2)
+    f = P.one("nnls_normal_block3")
+    # the selecting variable: `if (V < 0) { G_ = G ... } else { G_ = Gprime ... }`
+    V = None
+    for i in f.walk():
+        if f.k(i) != "IfStmt" or f.nodes[i].get("else", -1) < 0:
+            continue
+        c = f.nodes[f.strip(f.nodes[i]["cond"])]
+        if c["k"] == "BinaryOperator" and c.get("op") == "<" and f.nodes[f.strip(c["ch"][1])].get("cv") == 0 and f.k(f.strip(c["ch"][0])) == "DeclRefExpr":
+            stores = [f.render(x).replace(" ", "") for x in f.walk(i) if ts.assign_parts(f, x)]
+            if any(re.match(r"^\(\w+=G\)$", t) for t in stores) and any(re.match(r"^\(\w+=Gprime\)$", t) for t in stores):
+                V = f.nodes[f.strip(c["ch"][0])]["decl"]
+    if V is None:
+        raise core.AnalysisBroken("SG-10: the test that selects between the live constrained set and its snapshot was not found")
+    vid = V["id"]
+    sel = None
+    for i in f.walk():
+        if f.k(i) == "IfStmt" and f.nodes[i].get("else", -1) >= 0:
+            t = f.render(f.nodes[i]["cond"]).replace(" ", "")
+            if t in ("(nH1==0)", "(0==nH1)"):
+                sel = i
+
+    def assigns(root):
+        out = []
+        for x in f.walk(root):
+            ap = ts.assign_parts(f, x)
+            while ap and ap[1] is not None:
+                if f.k(f.strip(ap[0])) == "DeclRefExpr" and f.nodes[f.strip(ap[0])]["decl"].get("id") == vid:
+                    r = f.strip(ap[1])
+                    while ts.assign_parts(f, r) and ts.assign_parts(f, r)[1] is not None:      # chained: a = b = -1
+                        r = f.strip(ts.assign_parts(f, r)[1])
+                    out.append(f.nodes[r].get("cv"))
+                nxt = f.strip(ap[1])
+                ap = ts.assign_parts(f, nxt) if f.k(nxt) == "BinaryOperator" else None
+        return out
+    if sel is None:
+        C.ob("SG-10", "nnls_normal_block3", "snapshot-flag-reset-when-in-step", False, f.where(), "the `nH1 == 0` test at the end of the outer iteration was not found")
+        return
+    a_then, a_else = assigns(f.nodes[sel]["then"]), assigns(f.nodes[sel]["else"])
+    ok1 = any(isinstance(v, int) and v < 0 for v in a_then)
+    C.ob("SG-10", "nnls_normal_block3", "snapshot-flag-reset-when-in-step", ok1, f.loc(sel),
+         "%s is set negative where the factor is in step with the partition again" % V["name"] if ok1 else
+         "%s is not set negative on the `nH1 == 0` side: the next iterations go on reading the snapshot taken earlier" % V["name"])
+    C.ob("SG-10", "nnls_normal_block3", "snapshot-flag-set-when-pending", bool(a_else), f.loc(sel),
+         "%s takes the snapshot's size where constraints are pending" % V["name"] if a_else else "%s is not assigned on the pending side" % V["name"])
